@@ -68,7 +68,7 @@ size_t splinetable<Alloc>::estimateMemory(const std::string& filePath,
 		std::ostringstream hduname;
 		hduname << "KNOTS" << i;
 		fits_movnam_hdu(fits, IMAGE_HDU, const_cast<char*>(hduname.str().c_str()), 0, &error);
-		long nknots;
+		long nknots = 0;
 		fits_get_img_size(fits, 1, &nknots, &error);
 		
 		if (error != 0) {
@@ -355,13 +355,18 @@ bool splinetable<Alloc>::read_fits_core(fitsfile* fits, const std::string& fileP
 		std::ostringstream hduname;
 		hduname << "KNOTS" << i;
 		fits_movnam_hdu(fits, IMAGE_HDU, const_cast<char*>(hduname.str().c_str()), 0, &error);
-		long nknots_temp;
+		long nknots_temp = 0; //stays 0 if the extension has no axis at all
 		fits_get_img_size(fits, 1, &nknots_temp, &error);
 		
 		if (error != 0)
 			throw std::runtime_error("Error reading size of knot vector "+std::to_string(i));
 		if(nknots_temp<=0)
 			throw std::runtime_error("Invalid number of knots ("+std::to_string(nknots_temp)+") in dimension "+std::to_string(i));
+		//the padding below is computed from the order, so the order has to be
+		//checked against the number of knots before anything is allocated
+		if((uint64_t)nknots_temp < 2*(uint64_t)order[i]+2)
+			throw std::runtime_error("Too few knots ("+std::to_string(nknots_temp)+") for a spline of order "
+			                         +std::to_string(order[i])+" in dimension "+std::to_string(i));
 		nknots[i]=nknots_temp;
 		
 		//Allow spline evaluations to run off the ends of the
